@@ -1059,7 +1059,7 @@ func (s *HS) semantic() {
 	case 2:
 		i.amount = []uint64{3, 5, 0, 1 << 60, 1<<63 + 1}[s.rng.Intn(5)]
 	case 3:
-		i.ks = -int64(1 + s.rng.Intn(3))
+		i.ks = -int64(1 + s.rng.Intn(6))
 	case 4:
 		outs = s.freshOutputs(cashu.AmountSplit(i.amount + 1))
 	case 5:
@@ -1068,7 +1068,7 @@ func (s *HS) semantic() {
 		}
 	case 6:
 		if len(outs) > 0 {
-			outs[0].ks = -2
+			outs[0].ks = []int64{-2, -4, -5}[s.rng.Intn(3)]
 		}
 	case 7:
 		outs = nil // valid: the inputs are burnt
